@@ -45,7 +45,10 @@ func (v *Value) UnmarshalNBT(tagType byte, r nbt.DecoderReader) error {
 			return err
 		}
 
-		v.data = append(v.data[:0], make([]byte, 4+n)...)
+		if n < 0 {
+			return errors.New("byte array length less than 0")
+		}
+		v.data = append(v.data[:0], make([]byte, 4+int(n))...)
 		binary.BigEndian.PutUint32(v.data, uint32(n))
 
 		_, err = io.ReadFull(r, v.data[4:])
@@ -59,7 +62,10 @@ func (v *Value) UnmarshalNBT(tagType byte, r nbt.DecoderReader) error {
 			return err
 		}
 
-		v.data = append(v.data[:0], make([]byte, 2+n)...)
+		if n < 0 {
+			return errors.New("string length less than 0")
+		}
+		v.data = append(v.data[:0], make([]byte, 2+int(n))...)
 		binary.BigEndian.PutUint16(v.data, uint16(n))
 
 		_, err = io.ReadFull(r, v.data[2:])
@@ -115,7 +121,10 @@ func (v *Value) UnmarshalNBT(tagType byte, r nbt.DecoderReader) error {
 			return err
 		}
 
-		v.data = append(v.data[:0], make([]byte, 4+n*4)...)
+		if n < 0 {
+			return errors.New("int array length less than 0")
+		}
+		v.data = append(v.data[:0], make([]byte, 4+int(n)*4)...)
 		binary.BigEndian.PutUint32(v.data, uint32(n))
 
 		_, err = io.ReadFull(r, v.data[4:])
@@ -129,7 +138,10 @@ func (v *Value) UnmarshalNBT(tagType byte, r nbt.DecoderReader) error {
 			return err
 		}
 
-		v.data = append(v.data[:0], make([]byte, 4+n*8)...)
+		if n < 0 {
+			return errors.New("long array length less than 0")
+		}
+		v.data = append(v.data[:0], make([]byte, 4+int(n)*8)...)
 		binary.BigEndian.PutUint32(v.data, uint32(n))
 
 		_, err = io.ReadFull(r, v.data[4:])
